@@ -16,7 +16,7 @@
        decreases with each item it hands out, the "never early" flag of the monitor stays true: no
        execute() ends without its handler having completed unless the request's Cancel was read,
        its deadline timer was due, or the channel was dropped; and the trace is well formed.
-   NOT yet proved as theorems (checked by the monitors on every run):
+   Monitor theorems (proved, see the end of this file; also evaluated on the real traces on every run):
      C06_monitor_rel : forall c t0 ops, c06_rel_ok c ops (fst (srun c t0 ops)) = true
      C06_monitor     : forall c t0 ops, limiter_blocked_on_sink c ops (fst (srun c t0 ops)) = false ->
                                         c06_ok c ops (fst (srun c t0 ops)) = true
@@ -94,6 +94,25 @@ Example C06_nonvacuous :
      [OHDropped 0; OExecReady 0; OGauges 0 0]].
 Proof. vm_compute. reflexivity. Qed.
 
+From TarpcV Require Import ServerFuel ServerSpec ServerProofsPA4 ServerProofsPB6 ServerProofsPC10 ServerProofsPC3.
+
+(* THE MONITOR THEOREMS.  Late clause: once a request's deadline has passed and the Requests stream
+   has been polled to completion, its handler is never polled again and nothing is written for
+   it.  c06_rel_ok exempts exactly the polls in which the limiter was blocked on a not-ready
+   sink (K2, known finding); outside that class the full-strength monitor accepts. *)
+Theorem C06_monitor_rel : forall (T C : Type) (tp : transport T response cmsg) (ctl : T -> C -> T)
+    (tfuel : T -> nat) (c : cfg) (t0 : T) (ops : list (op C)),
+  tfuel_ok tp tfuel ->
+  c06_rel_ok c ops (fst (run tp ctl tfuel c t0 ops)) = true.
+Proof. exact s06_rel. Qed.
+
+Theorem C06_monitor : forall (T C : Type) (tp : transport T response cmsg) (ctl : T -> C -> T)
+    (tfuel : T -> nat) (c : cfg) (t0 : T) (ops : list (op C)),
+  tfuel_ok tp tfuel ->
+  limiter_blocked_on_sink c ops (fst (run tp ctl tfuel c t0 ops)) = false ->
+  c06_ok c ops (fst (run tp ctl tfuel c t0 ops)) = true.
+Proof. exact s06. Qed.
+
 Print Assumptions C06_timer_not_before_deadline.
 Print Assumptions C06_expiry_never_early.
 Print Assumptions C06_expiry_frame.
@@ -101,3 +120,5 @@ Print Assumptions C06_idle_means_enforced.
 Print Assumptions C06_never_early_monitor.
 Print Assumptions C06_never_early_scripted.
 Print Assumptions C06_limiter_blocked_on_sink_witness.
+Print Assumptions C06_monitor_rel.
+Print Assumptions C06_monitor.
